@@ -47,7 +47,10 @@ def strategy(draw, tier="quick"):
             "inplace": draw(st.booleans()), "anchors": anchors,
             "bond_order": draw(st.sampled_from(["as-built", "shuffled"])), "seed": draw(st.integers(0, 2 ** 31)),
             "layout": draw(st.sampled_from(["blocks", "blocks", "interleaved", "by-position"])),
-            "late_bond": draw(st.integers(0, 4)) == 0}
+            "late_bond": draw(st.integers(0, 4)) == 0,
+            # the coordinate array of the trajectory is a view into a larger buffer (as after md.load of some formats, or
+            # Trajectory(buf[1:], ...)), not an array that owns its memory
+            "xyz_view": draw(st.integers(0, 3)) == 0}
 
 
 def build(case):
@@ -160,6 +163,11 @@ def run_case(case):
     with warnings.catch_warnings():
         warnings.simplefilter("ignore")
         traj, bonds, mol_atoms, split = build(case)
+        if case.get("xyz_view"):
+            buf = np.concatenate([np.zeros((1,) + traj.xyz.shape[1:], dtype=np.float32), traj.xyz])
+            traj.xyz = buf[1:]
+            if traj.xyz.base is not None:
+                labels.append("xyz-is-a-view")
         nf = traj.n_frames
         before = traj.xyz.copy()
         cellL, cellA, time0 = traj.unitcell_lengths.copy(), traj.unitcell_angles.copy(), traj.time.copy()
